@@ -126,6 +126,7 @@ let prelude () =
            (if ne then " noexcept" else "")))
     [false; true]) [false; true]) [0; 1; 2]) [false; true]) [false; true];
   add "template <class U> constexpr bool dtor_ok = requires { std::declval<U&>().~U(); };";
+  add "template <class F, class T> constexpr bool call_ok = requires { std::declval<void (&)(T)>()(std::declval<F>()); };";
   (* does X<T...> have a member `type` (SFINAE-friendly traits only) *)
   add "#define Z_HAS_TYPE(ns, tr) template <class... T> constexpr bool ns##_has_##tr = requires { typename ns::tr<T...>::type; };";
   (* lines tagged /*etl*/ are left out of the translation units that test std alone *)
@@ -225,7 +226,7 @@ let zoo tier seed : cty list =
   let l1 = List.filter wf (dedup l1) in
   let core1 = List.filteri (fun i _ -> tier <> "quick" || i mod 3 = 0) l1 in
   let l2 = List.filter wf (dedup (List.concat_map step core1)) in
-  let l2 = if tier = "quick" then List.filteri (fun i _ -> i mod 4 = (seed mod 4)) l2 else l2 in
+  let l2 = if tier = "quick" then List.filteri (fun i _ -> i mod 6 = (seed mod 6)) l2 else l2 in
   let l3 =
     let st = Random.State.make [| seed; 15 |] in
     let pick = List.filter (fun _ -> Random.State.int st (if tier = "quick" then 20 else 12) = 0) l2 in
@@ -495,6 +496,9 @@ let emit tier cfgs seed =
     obl "prop" "is_invocable_r" key (sp "etl::is_invocable_r_v<%s, %s> == std::is_invocable_r_v<%s, %s>" ra rb ra rb);
     obl "prop" "invoke_result" key (sp "z::invoke_result_agrees<%s, %s>" ra rb);
     List.iter (fun c -> obl "prop" ("concept " ^ c) key (sp "etl::%s<%s, %s> == std::%s<%s, %s>" c ra rb c ra rb)) prop_concepts_binary;
+    let cexpr = function CFalse -> "false" | CTrue -> "true" | CAsk -> sp "z::call_ok<%s, %s>" ra rb in
+    obl "corr" "is_convertible (library)" key (sp "etl::is_convertible_v<%s, %s> == %s" ra rb (cexpr (is_convertible_q a b)));
+    obl "specval" "is_convertible (library)" key (sp "std::is_convertible_v<%s, %s> == %s" ra rb (cexpr (std_is_convertible_q a b)));
     obl "corr" "recorded: common_reference_with" key
       (sp "etl::common_reference_with<%s, %s> == (std::is_same_v<%s, %s> && std::convertible_to<%s, %s>)" ra rb ra rb ra ra);
     (* common_reference_t<T const&, U const&> exists only for identical operands, and must equal
@@ -540,8 +544,8 @@ let emit tier cfgs seed =
       "index_of", "etl::meta::index_of_v<char, etl::meta::list<int, char, long>> == 1 && etl::meta::index_of_v<int, etl::meta::list<int, char, long>> == 0" ];
   (* ---- a fixed family of classes related by inheritance (the generated classes have no bases):
           public, private, virtual, ambiguous (diamond without virtual) and indirect bases *)
-  line [ "H"; "namespace zb { struct B { int b; }; struct D : B { }; struct P : private B { }; struct V : virtual B { }; struct A1 : B { }; struct A2 : B { }; struct M : A1, A2 { }; struct I : D { }; struct Poly { virtual ~Poly(); }; struct PD : Poly { }; union U { int u; }; struct Conv { operator B() const; operator int() const noexcept; }; struct Expl { explicit Expl(B const&); Expl(int) noexcept; }; struct NC { NC(); NC(NC&); NC& operator=(NC&); }; struct MO { MO(MO&&) noexcept; MO& operator=(MO&&); }; struct PDt { private: ~PDt(); }; struct TDt { ~TDt() noexcept(false); }; }" ];
-  let fam = [ "zb::B"; "zb::D"; "zb::P"; "zb::V"; "zb::A1"; "zb::M"; "zb::I"; "zb::Poly"; "zb::PD"; "zb::U"; "zb::Conv"; "zb::Expl"; "zb::NC"; "zb::MO"; "zb::PDt"; "zb::TDt";
+  line [ "H"; "namespace zb { struct B { int b; }; struct D : B { }; struct P : private B { }; struct V : virtual B { }; struct A1 : B { }; struct A2 : B { }; struct M : A1, A2 { }; struct I : D { }; struct Poly { virtual ~Poly(); }; struct PD : Poly { }; union U { int u; }; struct Conv { operator B() const; operator int() const noexcept; }; struct Expl { explicit Expl(B const&); Expl(int) noexcept; }; struct NC { NC(); NC(NC&); NC& operator=(NC&); }; struct MO { MO(MO&&) noexcept; MO& operator=(MO&&); }; struct PDt { private: ~PDt(); }; struct TDt { ~TDt() noexcept(false); }; struct WL { }; struct WR { }; bool operator==(WL, WR); void operator!=(WR, WL) = delete; struct NB { struct R2 { }; R2 operator==(NB) const; }; struct EQ { bool operator==(EQ const&) const; }; struct CA { CA(CA const&); CA(CA&&); CA& operator=(CA&); CA& operator=(CA&&); CA& operator=(CA const&&); CA& operator=(CA const&) = delete; }; struct Ex2 { explicit Ex2() = default; }; struct Agg { Ex2 e; }; }" ];
+  let fam = [ "zb::B"; "zb::D"; "zb::P"; "zb::V"; "zb::A1"; "zb::M"; "zb::I"; "zb::Poly"; "zb::PD"; "zb::U"; "zb::Conv"; "zb::Expl"; "zb::NC"; "zb::MO"; "zb::PDt"; "zb::TDt"; "zb::WL"; "zb::WR"; "zb::NB"; "zb::EQ"; "zb::CA"; "zb::Agg";
               "zb::D const"; "zb::B volatile"; "int"; "void" ] in
   List.iter (fun x -> List.iter (fun y ->
       let key = x ^ " ; " ^ y in
@@ -549,7 +553,9 @@ let emit tier cfgs seed =
           obl "prop" (tr ^ " (inheritance)") key (sp "etl::%s_v<%s, %s> == std::%s_v<%s, %s>" tr x y tr x y))
         [ "is_base_of"; "is_convertible"; "is_nothrow_convertible"; "is_constructible"; "is_nothrow_constructible"; "is_assignable"; "is_same" ];
       List.iter (fun c -> obl "prop" ("concept " ^ c ^ " (inheritance)") key (sp "etl::%s<%s, %s> == std::%s<%s, %s>" c x y c x y))
-        [ "derived_from"; "convertible_to"; "constructible_from"; "same_as" ];
+        [ "derived_from"; "convertible_to"; "constructible_from"; "same_as"; "assignable_from" ];
+      obl "prop" "concept weakly_equality_comparable_with (inheritance)" key
+        (sp "etl::weakly_equality_comparable_with<%s, %s> == std::__detail::__weakly_eq_cmp_with<%s, %s>" x y x y);
       if x <> "void" && y <> "void" then begin
         obl "prop" "pointer conversion (inheritance)" key
           (sp "etl::is_convertible_v<%s*, %s*> == std::is_convertible_v<%s*, %s*> && etl::is_constructible_v<%s&, %s&> == std::is_constructible_v<%s&, %s&> && etl::is_assignable_v<%s*&, %s*> == std::is_assignable_v<%s*&, %s*>" x y x y x y x y x y x y);
@@ -558,6 +564,10 @@ let emit tier cfgs seed =
   List.iter (fun x ->
       List.iter (fun tr -> obl "prop" (tr ^ " (inheritance)") x (sp "etl::%s_v<%s> == std::%s_v<%s>" tr x tr x))
         (List.filter (fun tr -> tr <> "is_trivially_copy_constructible") prop_unary);
+      List.iter (fun c -> if not (c = "swappable" && x = "zb::TDt") then
+                    obl "prop" ("concept " ^ c ^ " (inheritance)") x (sp "etl::%s<%s> == std::%s<%s>" c x c x))
+        prop_concepts_unary;
+      obl "prop" "concept boolean_testable (inheritance)" x (sp "etl::boolean_testable<%s> == std::__detail::__boolean_testable<%s> && etl::boolean_testable<decltype(std::declval<zb::NB>() == std::declval<zb::NB>())> == std::__detail::__boolean_testable<decltype(std::declval<zb::NB>() == std::declval<zb::NB>())>" x x);
       List.iter (fun sfx -> obl "prop" "unary traits on arrays / references (inheritance)" (x ^ sfx)
                     (sp "etl::is_destructible_v<%s%s> == std::is_destructible_v<%s%s> && etl::is_nothrow_destructible_v<%s%s> == std::is_nothrow_destructible_v<%s%s> && etl::is_copy_constructible_v<%s%s> == std::is_copy_constructible_v<%s%s> && etl::is_move_assignable_v<%s%s> == std::is_move_assignable_v<%s%s> && etl::is_trivially_destructible_v<%s%s> == std::is_trivially_destructible_v<%s%s>" x sfx x sfx x sfx x sfx x sfx x sfx x sfx x sfx x sfx x sfx))
         (List.filter (fun sfx -> not (sfx = " const" && x = "zb::D const")) [ "[2]"; "[2][3]"; "&"; "&&"; " const"; "*" ]))
